@@ -573,6 +573,9 @@ func (x *Exec) finish(fd *ast.FuncDecl) {
 			if len(en.Props) > 0 {
 				o.Props = en.Props
 			}
+			if ct.Sequential {
+				c.assume(final.pc, part) // later ensures may use earlier ones (each is an obligation of its own)
+			}
 		}
 	}
 }
